@@ -29,6 +29,10 @@ def plan(tier, seed):
     maxlen = 11 if tier == "quick" else 13
     for n in range(0, maxlen + 1):
         out.append({"slice": f"subsequences<= {maxlen}", "mode": "subseq", "n": n})
+    # operation histories: ONE mutable parent sequence object, rearranged in place between calls (every permutation of
+    # its content, in the order of itertools.permutations), every mask queried against each arrangement
+    for n in range(1, (6 if tier == "quick" else 7) + 1):
+        out.append({"slice": "one buffer permuted in place", "mode": "buffer", "n": n})
     return out
 
 
@@ -54,6 +58,27 @@ def check_subseq(n, mask, alphabet):
     if mask_from_subseq(tuple(sub), tuple(parent)) != mask:
         return f"mask_from_subseq on tuples differs for {sub}"
     return None
+
+
+def check_buffer(n):
+    """-> (bad, evaluations): the same list object holds every arrangement of n distinct elements in turn"""
+    import itertools
+    buf = list(range(n))
+    ev = 0
+    for step, perm in enumerate(itertools.permutations(range(n))):
+        buf[:] = perm            # in-place edit of the one parent object
+        for mask in range(1 << n):
+            ev += 1
+            sub = [buf[i] for i in range(n) if mask >> i & 1]
+            got = subseq_from_mask(mask, buf)
+            if list(got) != sub:
+                return (f"arrangement #{step} of one list object edited in place, now {buf}: subseq_from_mask({bin(mask)}) = "
+                        f"{list(got)}, expected {sub}"), ev
+            back = mask_from_subseq(sub, buf)
+            if back != mask:
+                return (f"arrangement #{step} of one list object edited in place, now {buf}: mask_from_subseq({sub}) = "
+                        f"{bin(back)}, expected {bin(mask)}"), ev
+    return None, ev
 
 
 ALPHABETS = {"int": lambda i: i, "str": lambda i: f"g{i}", "rev": lambda i: 100 - i}
@@ -85,6 +110,14 @@ def run_shard(shard, tier, seed):
                         nt += 1
             if not samples and parent:
                 samples.append({"mode": "dist", "child": 1, "parent": parent, "nbits": nb})
+    elif shard["mode"] == "buffer":
+        bad, ev = check_buffer(shard["n"])
+        n_eval += ev
+        nt += ev
+        if bad:
+            vtotal += 1
+            viols.append({"property": PROP, "subcheck": "buffer_history", "detail": bad, "case": {"mode": "buffer", "n": shard["n"]}})
+        samples.append({"mode": "buffer", "n": shard["n"]})
     else:
         n = shard["n"]
         for mask in range(1 << n):
@@ -106,6 +139,8 @@ def replay(v):
     c = v["case"]
     if c["mode"] == "dist":
         bad = check_dist(c["child"], c["parent"], c["edges"], c["nbits"])
+    elif c["mode"] == "buffer":
+        bad = check_buffer(c["n"])[0]
     else:
         bad = check_subseq(c["n"], c["mask"], ALPHABETS[c["alphabet"]])
     return {"violated": bool(bad), "detail": bad}
